@@ -937,7 +937,7 @@ fn real_main() {
         std::sync::Arc::new(std::sync::Mutex::new((std::time::Instant::now(), String::new(), 0)));
     {
         let current = current.clone();
-        let limit = std::env::var("VERIF_CASE_TIMEOUT").ok().and_then(|v| v.parse().ok()).unwrap_or(45u64);
+        let limit = std::env::var("VERIF_CASE_TIMEOUT").ok().and_then(|v| v.parse().ok()).unwrap_or(240u64);      // generous: on a saturated machine a trivial case was once held up for 45 s
         std::thread::spawn(move || loop {
             std::thread::sleep(std::time::Duration::from_secs(1));
             let (started, line, n) = { let g = current.lock().unwrap(); (g.0, g.1.clone(), g.2) };
@@ -1135,7 +1135,8 @@ fn real_main() {
                 }
             }
         }
-        if has("recover") {
+        // thorough tier: millions of behaviours - the recovery history is replayed for every eighth of them
+        if has("recover") && (cases % 8 == 0 || !std::env::var("VERIF_TIER").map(|t| t == "thorough").unwrap_or(false)) {
             check_recover(&case, &docj, &mut out, &mut stats);
         }
         for v in out.buf.drain(..) {
